@@ -68,6 +68,16 @@ CHECKS.update({
         note='Trusted: symnp engine incl. calculus rules on dual numbers, z3. Exact ties of dual values (kinks, == shortcuts) excluded. Complex operators outside. One known finding (PointwiseNorm.derivative on array-weighted base spaces raises).',
         ref='DESIGN.md section 4 C06'),
 })
+CHECKS.update({
+    'C08': dict(
+        text='f(x), f.convex_conj(y), the space inner product and both proximals are computed by the real code on symbolic x, y for every functional recipe with a conjugate (built-in pairs and derived: scalings, translation, linear/quadratic perturbation, scalar sum, separable sum, infimal convolution, default conjugate, Bregman); z3 decides Fenchel-Young on every pair of finite paths, the Fenchel equality at y = grad f(x), f** = f (values where finite and equal effective domains per path) and the Moreau decomposition prox_{sigma f}(x) + sigma prox_{f*/sigma}(x/sigma) = x, for all x, y.',
+        note='Trusted: symnp engine, z3; n = 1-2, sigma = 1/2; KL by Moreau only (no values); sqrt-based functionals by values only in the thorough tier; np.finfo eps served as 0. One known finding (Huber on product / array-weighted spaces).',
+        ref='DESIGN.md section 4 C08'),
+    'C11': dict(
+        text='The real loops of admm_linearized / adupdates / doubleprox_dc and of their *_simple references are executed on symbolic start points and data (dyadic 2x2 operators; L1, squared L2 (scaled/translated), box terms; several step-size choices incl. stepsize != 1, gamma != mu, element-valued inner steps) and z3 decides term-wise equality of all callback iterates and final states for niter 1..2; resumption is decided as an inductive step from an arbitrary symbolic state (k+1 at once = k then 1, k <= 2) for landweber (+projection), kaczmarz (fixed order), proximal_gradient, mlem, steepest_descent (constant step) and pdhg with x_relax=, y= (theta in {0, 1/2, 1}); callbacks observed exactly once per iteration.',
+        note='Trusted: symnp engine (abs/max merged into if-then-else), z3. Outside: accelerated PDHG / proximal gradient (unexposed state), randomised orders, rounding.',
+        ref='DESIGN.md section 4 C11'),
+})
 NOT_YET = {}
 
 
